@@ -653,7 +653,7 @@ def rank_inputs(recipe, r):
 
 FAULT_KINDS = ("drop-send", "drop-recv", "dup-send", "dup-recv", "retag-send",
                "retag-recv", "redirect-send", "redirect-recv", "self-send",
-               "self-recv", "self-loop", "close-cycle")
+               "self-recv", "self-loop", "dup-send-nested", "close-cycle")
 
 
 def build_rank(recipe, r, npvals=None, faults=(), localise=False):
@@ -768,6 +768,14 @@ def build_rank(recipe, r, npvals=None, faults=(), localise=False):
                 dst = fault(ci, "redirect-send")["alt"]
             if "self-send" in ks:
                 dst = r
+            if "dup-send-nested" in ks:
+                # two sends with one id, the first inside the PAYLOAD of the
+                # second (not below its passthrough)
+                inner = pt.staple_distributed_send(
+                    payload(ci), dst, tag_of(ci, "send"), stapled_to=payload(ci))
+                expr = pt.staple_distributed_send(
+                    inner + 1, dst, tag_of(ci, "send"), stapled_to=expr)
+                continue
             expr = pt.staple_distributed_send(
                 payload(ci), dst, tag_of(ci, "send"), stapled_to=expr)
             if "dup-send" in ks:
